@@ -30,6 +30,7 @@ var replayTable = []replayDriver{
 	{Funcs: []string{"shellfuncsfile.Converter.fromSingleFile", "shellfuncsfile.Converter.fromDirectory"}, PkgDir: "lib/shellfuncsfile", File: "shellfuncsfile_c17_test.go", Test: "TestVerifReplayC17"},
 	{Funcs: []string{"simpleshell.Go"}, PkgDir: "lib/simpleshell", File: "simpleshell_defaultclient_test.go", Test: "TestVerifReplayDefaultClient"},
 	{Funcs: []string{"simpleshell.CmdShell.Go"}, PkgDir: "lib/simpleshell", File: "simpleshell_cmdshell_test.go", Test: "TestVerifReplayCmdShellDrain"},
+	{Funcs: []string{"opshell.New#2"}, PkgDir: "lib/opshell", File: "opshell_ctrlo_lockorder_test.go", Test: "TestVerifReplayCtrlOLockOrder"},
 	{Funcs: []string{"hsrv.Server.RLogf", "hsrv.Server.RErrorLogf", "hsrv.Server.Logf", "hsrv.Server.ErrorLogf"}, PkgDir: "internal/hsrv", File: "hsrv_rlogf_test.go", Test: "TestVerifReplayRLogf"},
 }
 
